@@ -2,6 +2,7 @@ import EgVerif.Proofs.Lifecycle
 import EgVerif.Proofs.LifecycleIR
 import EgVerif.Proofs.LifecycleShutdown
 import EgVerif.Proofs.LifecycleAbort
+import EgVerif.Proofs.LifecycleQueue
 import EgVerif.Gen.FactsC20
 /-!
 # C20 — objects are initialised, inherited and closed exactly once as the configuration changes
@@ -776,5 +777,84 @@ theorem stepAll_componentwise (Ps : List Params) (t : Nat) (ws : List WState) (d
         | succ i => simpa using ih ws i
   rw [hz]
   cases Ps[i]? <;> cases ws[i]? <;> rfl
+
+/-! ## The pending-event queue (engineer mux; seeded change C20-m5)
+
+`Proofs/LifecycleQueue.lean`: the registry goroutine *sends* a watcher's event and goes on; the consumer goroutine
+*receives* one event at a time. `qrun` ranges over every interleaving of `produce` (apply a snapshot / attach) and
+`consume` (receive + `handleEvent`). The theorems above were about the synchronous model (each event handled inside
+the step that produces it), i.e. about quiescent states only. -/
+
+/-- **Exactly once and live = snapshot, for every interleaving and at every moment — also while events are
+pending.** Whatever snapshots the registry has applied while the consumer was busy, the consumer has made on every
+name exactly the lifecycle calls the specification prescribes for a **prefix** `h.take m` of the applied items, its
+live object for the name is that prefix's, the queue holds the events of the remaining `h.length - m` items in
+order, and the registry is at the latest snapshot. Nothing is skipped, merged or reordered. -/
+theorem exactly_once_any_interleaving (P : Params) (ok : P.WF) (its : List QItem)
+    (wf : HistWF (produced its)) (n : Name) :
+    ∃ m, m ≤ (produced its).length ∧
+      callsOf n (qrun P QSys.init its).cons.log = specWord P n 0 false none ((produced its).take m) ∧
+      (∀ s, (qrun P QSys.init its).cons.store.get (s, n) =
+        (view P (specFinal n 0 false none ((produced its).take m)).1
+          (specFinal n 0 false none ((produced its).take m)).2).filter (fun e => decide (P.slot e.kind = s))) ∧
+      (qrun P QSys.init its).queue.length = (produced its).length - m ∧
+      (qrun P QSys.init its).s.ents.get n = (specFinal n 0 false none (produced its)).2 := by
+  obtain ⟨hs, m, hm, hc, hq⟩ := qrun_prefix ok.order its
+  have wfm : HistWF ((produced its).take m) := fun it hit => wf it (List.mem_of_mem_take hit)
+  refine ⟨m, hm, ?_, fun s => ?_, ?_, ?_⟩
+  · rw [hc]; exact exactly_once P ok _ wfm n
+  · rw [hc]; exact (live_eq_snapshot P ok _ wfm n s).1
+  · rw [hq]
+    have hlen : ∀ (h : List Item) (s : Sys), (pending P s h).length = h.length := by
+      intro h
+      induction h with
+      | nil => intro s; rfl
+      | cons it r ih => intro s; simp [pending, ih]
+    rw [hlen]; simp
+  · rw [hs]; exact (live_eq_snapshot P ok _ wf n 0).2
+
+/-- **… and once the queue is empty the consumer is at the latest snapshot**: all lifecycle calls of the whole
+history, live set = latest applied snapshot — however the applications and the consumptions were interleaved
+(in particular: three snapshots applied while the consumer was blocked in a slow `Init` are reconciled one by
+one, a name that changed, disappeared and reappeared in between gets `inherit`, `close`, `init`). -/
+theorem exactly_once_when_drained (P : Params) (ok : P.WF) (its : List QItem) (wf : HistWF (produced its))
+    (hq : (qrun P QSys.init its).queue = []) (n : Name) :
+    callsOf n (qrun P QSys.init its).cons.log = specWord P n 0 false none (produced its) ∧
+    ∀ s, (qrun P QSys.init its).cons.store.get (s, n) =
+      (view P (specFinal n 0 false none (produced its)).1 (specFinal n 0 false none (produced its)).2).filter
+        (fun e => decide (P.slot e.kind = s)) := by
+  rw [qrun_drained ok.order its hq]
+  exact ⟨exactly_once P ok _ wf n, fun s => (live_eq_snapshot P ok _ wf n s).1⟩
+
+/-- The consumer loops as the queue model assumes them (regenerated from the source on every run): `Supervisor.run`
+and `RawConfigTrafficController.run` receive from the watcher channel in exactly one place, one event per
+iteration of the `select`, and pass the received event itself to `handleEvent` — no second receive, no merging or
+rewriting of events in between (the received value's name is normalised to `ev`). -/
+theorem consumer_loops_pass_events_unmodified :
+    Gen.FactsC20.supervisorRunWatchCase = ["ev := <-s.watcher.Watch()", "s.handleEvent(ev)"] ∧
+    Gen.FactsC20.supervisorWatchReceives = ["<-s.watcher.Watch()"] ∧
+    Gen.FactsC20.supervisorHandleEventArgs = ["ev", "calls:1"] ∧
+    Gen.FactsC20.trafficRunWatchCase = ["ev := <-rctc.watcher.Watch()", "rctc.handleEvent(ev)"] ∧
+    Gen.FactsC20.trafficWatchReceives = ["<-rctc.watcher.Watch()"] ∧
+    Gen.FactsC20.trafficHandleEventArgs = ["ev", "calls:1"] := by decide
+
+/-- Non-vacuity (the scenario of seeded change C20-m5): the consumer is busy while name 7 changes its body
+(snapshot 2), disappears (3) and reappears with the body of snapshot 2 (4); then it consumes the four pending
+events: `init, inherit, close, init` — not "nothing" — and the live object is the newest entity. At the moment
+three events are pending the consumer is at prefix 2 of 5. -/
+private def Pq : Params :=
+  { cat := fun _ => 1, filter := fun c => c == 1, slot := fun _ => 0, createChecks := true, namespaced := false,
+    panics := fun _ _ _ => false, order := fun _ _ m => m }
+private def itsBusy : List QItem :=
+  [.produce .attach, .consume, .produce (.snap [(7, some (0, 0))]), .consume,
+   .produce (.snap [(7, some (0, 1))]), .produce (.snap []), .produce (.snap [(7, some (0, 1))])]
+
+example : (qrun Pq QSys.init itsBusy).queue.length = 3 ∧
+    callsOf 7 (qrun Pq QSys.init itsBusy).cons.log = [⟨.init, 7, ⟨0, 0, 0⟩, none, false⟩] := by decide
+example : callsOf 7 (qrun Pq QSys.init (itsBusy ++ [.consume, .consume, .consume])).cons.log =
+    [⟨.init, 7, ⟨0, 0, 0⟩, none, false⟩, ⟨.inherit, 7, ⟨1, 0, 1⟩, some ⟨0, 0, 0⟩, false⟩,
+     ⟨.close, 7, ⟨1, 0, 1⟩, none, false⟩, ⟨.init, 7, ⟨3, 0, 1⟩, none, false⟩] ∧
+    (qrun Pq QSys.init (itsBusy ++ [.consume, .consume, .consume])).cons.store = [((0, 7), ⟨3, 0, 1⟩)] ∧
+    (qrun Pq QSys.init (itsBusy ++ [.consume, .consume, .consume])).queue = [] := by decide
 
 end EgVerif.C20
